@@ -41,3 +41,124 @@ def sample_evenly(items, k):
         return list(items)
     step = len(items) / float(k)
     return [items[int(i * step)] for i in range(k)]
+
+
+# --------------------------------------------------------------------------- standard runner
+
+def run_standard(prop, tier, gens, case_of, trace, key_of, corruptors, init_name, rule, assumptions,
+                 timeout=10.0, batch=50, extra_cases=None, nontrivial=None, level='model_checking',
+                 post=None, exhaustive=True, inconclusive_is_violation=False, judge_shard=4000, sort_key=None):
+    """gens: list of dicts {module, cfg, mode: 'dump'|'sim', num, depth, where}.
+    case_of(state) -> case dict (must contain 'api' and the contract case under 'c') or None.
+    trace: (module, cfg). key_of(case, clause) -> canonical key dict.
+    corruptors: list of (select(event)->bool, mutate(event)->event) ; every mutated event must be rejected."""
+    import copy
+    t0 = time.time()
+    wd = common.WorkDir(prop)
+    V = common.Verdicts(prop)
+    try:
+        work = tlc.stage(wd.sub('spec'), {})
+        cases = []
+        gen_states = gen_trans = 0
+        gen_info = []
+        for g in gens:
+            if g.get('mode', 'dump') == 'dump':
+                r, states = generate(work, g['module'], g['cfg'], where=g.get('where', 'pc = "done"'), timeout=g.get('timeout', 3000))
+            else:
+                r, states = simulate(work, g['module'], g['cfg'], g['num'], g['depth'], common.seed())
+            n0 = len(cases)
+            for st in states:
+                c = case_of(st)
+                if c is None:
+                    continue
+                if isinstance(c, list):
+                    cases.extend(c)
+                else:
+                    cases.append(c)
+            gen_states += r['distinct']
+            gen_trans += max(r['generated'] - 1, 0)
+            gen_info.append({'module': g['module'], 'cfg': g['cfg'], 'distinct_states': r['distinct'], 'cases': len(cases) - n0})
+        if extra_cases:
+            cases.extend(extra_cases(work))
+        if sort_key:
+            cases.sort(key=sort_key)
+        else:
+            cases.sort(key=lambda c: json.dumps({k: v for k, v in c.items() if k != 'c'}, sort_keys=True, ensure_ascii=False, default=str))
+        obs = pool.run_cases(cases, init_name=init_name, timeout=timeout, batch=batch, progress=prop)
+        events, inconclusive = [], 0
+        for idx, (c, o) in enumerate(zip(cases, obs)):
+            if o.get('timeout') and not inconclusive_is_violation:
+                inconclusive += 1
+                continue
+            events.append({'id': idx, 'c': c['c'], 'obs': o})
+        res = judge.judge(work, trace[0], events, cfg=trace[1], min_shard=judge_shard)
+        # binding self-test
+        st_events = []
+        for sel, mut in corruptors:
+            src = next((e for e in events if 'exception' not in e['obs'] and sel(e)), None)
+            if src is None:
+                print('MACHINERY: binding self-test found no event to corrupt for %s' % getattr(mut, '__name__', 'corruptor'))
+                return 2
+            st_events.append(mut(copy.deepcopy(src)))
+        good = next((e for e in events if 'exception' not in e['obs']), None)
+        nbadwant = len(st_events)
+        if good is not None:
+            st_events.append(copy.deepcopy(good))
+        for k, e in enumerate(st_events):
+            e['id'] = k
+        if st_events:
+            rs = judge.judge(work, trace[0], st_events, cfg=trace[1], shards=1)
+            good_is_bad = good is not None and any(b[0] == nbadwant for b in rs['bad']) and not any(b[0] == good['id'] for b in res['bad'])
+            if sorted(b[0] for b in rs['bad'] if b[0] < nbadwant) != list(range(nbadwant)) or good_is_bad:
+                print('MACHINERY: binding self-test failed: corrupted observations accepted or a genuine one rejected: %s' % (rs['bad'],))
+                return 2
+        for eid, clause in res['bad']:
+            c = cases[eid]
+            V.violation(key_of(c, clause), {'case': c, 'observed': obs[eid], 'clause': clause})
+        if res['nbad'] > len(res['bad']):
+            V.note('%d failing events in total; first %d reported' % (res['nbad'], len(res['bad'])))
+        for eid in res['drift'][:5]:
+            V.note('mechanism-drift: event %s' % json.dumps({k: v for k, v in cases[eid].items() if k != 'c'}, ensure_ascii=False)[:300])
+        if post:
+            post(work, V, cases, obs)
+        rc = V.finish()
+        nt = nontrivial or (lambda c, o: bool(o.get('ents')))
+        cov = {
+            'states': gen_states + res['states'],
+            'transitions': gen_trans + res['transitions'],
+            'traces_validated_against_impl': res['n'],
+            'samples': [{'case': {k: v for k, v in c.items() if k != 'c'}, 'expect': c['c'], 'observed': o}
+                        for c, o in sample_evenly(list(zip(cases, obs)), 5)],
+            'evaluations': len(cases),
+            'distinct_nontrivial': len({json.dumps({k: v for k, v in c.items() if k != 'c'}, sort_keys=True, ensure_ascii=False, default=str)
+                                        for c, o in zip(cases, obs) if nt(c, o)}),
+            'rule': rule,
+            'exhaustive': exhaustive,
+            'generators': gen_info,
+            'binding_selftest': 'passed (%d corrupted observations rejected)' % nbadwant,
+            'inconclusive_timeouts': inconclusive,
+            'mechanism_drift_events': len(res['drift']),
+            'known_findings_hit': sorted(V.known_hits),
+            'failing_events': res['nbad'],
+        }
+        common.write_evidence(prop, tier, level, cov, time.time() - t0, len(V.new), assumptions)
+        return rc
+    finally:
+        wd.cleanup()
+
+
+def replay_standard(prop, path, trace, init_name, timeout=10.0):
+    rec = json.load(open(path, encoding='utf-8'))
+    c = rec['detail']['case']
+    wd = common.WorkDir(prop + 'r')
+    try:
+        work = tlc.stage(wd.sub('spec'), {})
+        obs = pool.run_cases([c], init_name=init_name, batch=1, timeout=timeout)
+        res = judge.judge(work, trace[0], [{'id': 0, 'c': c['c'], 'obs': obs[0]}], cfg=trace[1], shards=1)
+        print(json.dumps({'case': {k: v for k, v in c.items() if k != 'c'}, 'observed': obs[0], 'verdict': res['bad']}, ensure_ascii=False, indent=1))
+        if res['nbad']:
+            print('VIOLATION property=%s replay=%s' % (prop, path))
+            return 1
+        return 0
+    finally:
+        wd.cleanup()
